@@ -586,7 +586,7 @@ def rule_r5(chk, p, t):
                 if unparse(c.func.value) in ("obs_list", "missed_observation_list") and c.args and concerns_target(c.args[0]):
                     primary_nodes.add(n.id)
         require(primary_nodes, "no append concerning the tasked target found", col.node)
-        paths = cfg.paths(targets=[cfg.exit.id], max_visits=1)
+        paths = cfg.paths(targets=[cfg.exit.id])
         r.paths_enumerated += len(paths)
         counts = {}
         for path in paths:
